@@ -152,4 +152,48 @@ theorem lzma_roundtrip_marker (pr : Params) (dictBuf : Nat) (hd : dictBuf ≤ EN
       rw [← hbt, List.length_append]; omega
     rw [this]
 
+
+/-! ## Encoder window moves keep the position contexts
+
+`LZEncoderData::move_window` shifts the buffer by `move_offset = (read_pos + 1 - keep_before) & !(MOVE_BLOCK_ALIGN-1)`
+and the encoder derives `pos_state` / the literal position bits from the buffer-relative position
+(`pos & ((1 << pb) - 1)`, `pb, lp ≤ 4`).  The decoder uses the absolute position.  They agree for every
+stream length iff every move offset is a multiple of 16 – which holds because the offset is a multiple
+of `MOVE_BLOCK_ALIGN` (re-extracted from `src/lz/lz_encoder.rs` on every run) and `16 ∣ MOVE_BLOCK_ALIGN`. -/
+
+/-- `x & !(MOVE_BLOCK_ALIGN - 1)` for a power-of-two alignment, as arithmetic -/
+def moveOffset (x : Nat) : Nat := x / Consts.MOVE_BLOCK_ALIGN * Consts.MOVE_BLOCK_ALIGN
+
+theorem move_block_align_ok : Consts.MOVE_BLOCK_ALIGN % 16 = 0 ∧ 0 < Consts.MOVE_BLOCK_ALIGN := by decide
+
+theorem moveOffset_mod16 (x : Nat) : moveOffset x % 16 = 0 := by
+  have h := move_block_align_ok.1
+  unfold moveOffset
+  generalize Consts.MOVE_BLOCK_ALIGN = a at *
+  generalize x / a = q
+  have ha : a = 16 * (a / 16) := by omega
+  rw [ha, Nat.mul_comm q, Nat.mul_assoc]
+  exact Nat.mul_mod_right _ _
+
+/-- after any number of window moves the buffer-relative position and the absolute position select
+    the same `pos_state` / literal-position context, for every mask width up to 4 bits -/
+theorem window_move_keeps_position_bits (k : Nat) (hk : k ≤ 4) (pos x : Nat) (hle : moveOffset x ≤ pos) :
+    (pos - moveOffset x) % 2 ^ k = pos % 2 ^ k := by
+  have h16 := moveOffset_mod16 x
+  generalize moveOffset x = off at *
+  have hdvd : 2 ^ k ∣ off := by
+    have : 2 ^ k ∣ 16 := by
+      have : k = 0 ∨ k = 1 ∨ k = 2 ∨ k = 3 ∨ k = 4 := by omega
+      rcases this with h | h | h | h | h <;> subst h <;> decide
+    exact Nat.dvd_trans this (Nat.dvd_of_mod_eq_zero h16)
+  obtain ⟨q, hq⟩ := hdvd
+  subst hq
+  have hsplit : pos = (pos - 2 ^ k * q) + 2 ^ k * q := by omega
+  calc (pos - 2 ^ k * q) % 2 ^ k = ((pos - 2 ^ k * q) + 2 ^ k * q) % 2 ^ k := by
+        rw [Nat.add_mul_mod_self_left]
+    _ = pos % 2 ^ k := by rw [← hsplit]
+
+/-- the alignment is necessary: with an 8-byte alignment a move by 8 flips bit 3 of the position -/
+example : (24 - 8) % 2 ^ 4 ≠ 24 % 2 ^ 4 := by decide
+
 end LzmaVerif.Props.C01
